@@ -1,14 +1,19 @@
 package props
 
 import (
+	"bytes"
 	"encoding/hex"
 	"math/rand"
+	"os"
 	"os/exec"
+	"path/filepath"
 	"strings"
 	"sync"
 	"sync/atomic"
 	"testing"
 	"time"
+
+	"github.com/dave/jennifer/jen"
 
 	"verifharness/hist"
 	"verifharness/term"
@@ -725,4 +730,119 @@ func TestC09SpellOracle(t *testing.T) {
 	if caught == 0 {
 		t.Errorf("a memo shared between the Files of one run is never caught")
 	}
+}
+
+// ---- stream concurrent-save (c09_save.go) ----
+
+func c09SaveRunMain(c *Case) []hist.Obs {
+	w := hist.NewWorld()
+	w.SavePath = c.Meta["savepath"].(func(string) string)
+	return w.Exec(c.Hist)
+}
+
+// The oracle accepts the unchanged Save on a whole quick stream (and removes its directories),
+// and rejects a Save that goes through a temporary file shared by the Saves of one directory:
+// no data race in Go's sense, contents exchanged or rename failing.
+func TestC09ConcurrentSave(t *testing.T) {
+	cases := c09SaveCases(rand.New(rand.NewSource(5)), "quick")
+	layouts := map[string]int{}
+	var sameDir *Case
+	for _, c := range cases {
+		got := c09SaveRunMain(c)
+		info := c.Meta["c09save"].(*c09SaveInfo)
+		root := info.root
+		if root == "" {
+			t.Fatalf("the main run saved nothing: %s", c.Hist.Sexp())
+		}
+		if d := (c09{}).Oracle(c, got); d != "" {
+			t.Fatalf("oracle rejects the unchanged implementation: %s\n%s", d, c.Hist.Sexp())
+		}
+		if _, err := os.Stat(root); !os.IsNotExist(err) {
+			t.Errorf("%s still exists after the oracle", root)
+		}
+		if !c.NonTrivial {
+			t.Errorf("trivial job set: %v", c.Tags)
+		}
+		for _, tg := range c.Tags {
+			if strings.HasPrefix(tg, "layout=") || strings.HasPrefix(tg, "names=") {
+				layouts[tg]++
+			}
+			if tg == "layout=same-pkg-same-dir" && len(c09SaveJobs(c.Hist)) >= 4 && sameDir == nil {
+				sameDir = c
+			}
+		}
+	}
+	for _, k := range []string{"layout=same-pkg-same-dir", "layout=diff-pkg-same-dir", "layout=same-pkg-diff-dirs", "layout=mixed", "names=plain", "names=tempish"} {
+		if layouts[k] < 2 {
+			t.Errorf("%s only %d times: %v", k, layouts[k], layouts)
+		}
+	}
+	if sameDir == nil {
+		t.Fatal("no job set with four Files in one directory")
+	}
+	// a Save whose temporary file is shared by all Saves into one directory
+	old := c09SaveFile
+	defer func() { c09SaveFile = old }()
+	c09SaveFile = func(f *jen.File, path string) error {
+		buf := &bytes.Buffer{}
+		if err := f.Render(buf); err != nil {
+			return err
+		}
+		tmp := filepath.Join(filepath.Dir(path), ".save.tmp")
+		if err := os.WriteFile(tmp, buf.Bytes(), 0644); err != nil {
+			return err
+		}
+		time.Sleep(200 * time.Microsecond)
+		return os.Rename(tmp, path)
+	}
+	got := c09SaveRunMain(sameDir)
+	d := (c09{}).Oracle(sameDir, got)
+	if d == "" {
+		t.Fatalf("the oracle accepts Saves that share a temporary file: %v", sameDir.Tags)
+	}
+	if !strings.Contains(d, "goroutines at the same time") || !(strings.Contains(d, "does not hold the source of its own File") || strings.Contains(d, "Save failed although")) {
+		t.Errorf("rejected, but for another reason: %s", d)
+	}
+	t.Logf("shared temporary file: %s", c09Clip(d))
+}
+
+func TestC09SaveJudgeHandMade(t *testing.T) {
+	jobs := []c09SaveJob{{F: 0, Sym: "d0/a.go"}, {F: 1, Sym: "d0/b.go"}, {F: 2, Sym: "d0/c.go"}}
+	want := []hist.Obs{{Kind: "write", Out: "package p\n\nvar A = 1\n"}, {Kind: "write", Out: "package p\n\nvar B = 2\n"}, {Kind: "fmterr", Out: "package p\n\n)"}}
+	okOuts := []c09SaveOutcome{{}, {}, {Err: "fmterr"}}
+	tree := func(a, b string, extra ...string) map[string]string {
+		m := map[string]string{"d0": "<dir>"}
+		if a != "" {
+			m["d0/a.go"] = a
+		}
+		if b != "" {
+			m["d0/b.go"] = b
+		}
+		for i := 0; i+1 < len(extra); i += 2 {
+			m[extra[i]] = extra[i+1]
+		}
+		return m
+	}
+	seq := tree(want[0].Out, want[1].Out)
+	check := func(name string, outs []c09SaveOutcome, tr map[string]string, sub string) {
+		t.Helper()
+		d := c09SaveJudge(jobs, want, outs, tr, seq)
+		switch {
+		case sub == "" && d != "":
+			t.Errorf("%s: rejected: %s", name, d)
+		case sub != "" && d == "":
+			t.Errorf("%s: accepted", name)
+		case sub != "" && !strings.Contains(d, sub):
+			t.Errorf("%s: rejected for another reason (want %q): %s", name, sub, d)
+		}
+	}
+	check("clean", okOuts, tree(want[0].Out, want[1].Out), "")
+	check("contents exchanged", okOuts, tree(want[1].Out, want[1].Out), "that is the source of the File of job 1")
+	check("rename failed", []c09SaveOutcome{{}, {Err: "rename d0/.p.go.tmp d0/b.go: no such file or directory"}, {Err: "fmterr"}}, tree(want[0].Out, ""), "Save failed although")
+	check("file missing", okOuts, tree(want[0].Out, ""), "does not exist after all jobs are done")
+	check("truncated", okOuts, tree(want[0].Out[:5], want[1].Out), "does not hold the source of its own File")
+	check("temporary left behind", okOuts, tree(want[0].Out, want[1].Out, "d0/.p.go.tmp", want[1].Out), "does not exist when the same Files are saved one after another")
+	check("format error swallowed", []c09SaveOutcome{{}, {}, {}}, tree(want[0].Out, want[1].Out), "Save returned \"\"")
+	check("file written despite the format error", okOuts, tree(want[0].Out, want[1].Out, "d0/c.go", "x"), "the target exists")
+	check("panic in a job", []c09SaveOutcome{{Builder: "boom"}, {}, {Err: "fmterr"}}, tree(want[0].Out, want[1].Out), "panic: boom")
 }
